@@ -52,7 +52,7 @@ struct Op { OpKind kind; uint8_t a; uint8_t b; float v; };
 struct Scenario {
   std::vector<int> cfg;          // per-sketch configuration code (family specific, see Fam::make)
   std::vector<Op> ops;
-  bool has_merge = false, has_rt = false;
+  bool has_merge = false, has_rt = false, has_query_before_merge = false;
   std::string shape;
 };
 
@@ -63,6 +63,7 @@ struct Shape {
   std::vector<double> w;             // relative stream length per sketch
   std::vector<int> cfg;
   double p_view, p_rt, p_move;
+  double p_qbm = 0;                  // probability of querying the destination immediately before (and the result right after) a merge
   int value_mode;                    // 0 random distinct, 1 ascending, 2 descending, 3 small domain, 4 zipf-ish, 5 per-sketch disjoint ranges, 6 two-point
   int domain;
   uint64_t seed;
@@ -82,13 +83,18 @@ inline void emit(const Shape& sh, int i, const std::vector<int>& len, Rng& r, Sc
   for (int e : events) {
     if (e < 0) {
       sc.ops.push_back(Op{OP_UPD, static_cast<uint8_t>(i), 0, 0.f});
-      if (r.chance(sh.p_view)) sc.ops.push_back(Op{OP_VIEW, static_cast<uint8_t>(i), 0, 0.f});
+      if (r.chance(sh.p_view)) sc.ops.push_back(Op{OP_VIEW, static_cast<uint8_t>(i), static_cast<uint8_t>(r.below(3)), 0.f});
       if (allow_rt && r.chance(sh.p_rt * 0.06)) { sc.ops.push_back(Op{OP_RT, static_cast<uint8_t>(i), 0, 0.f}); sc.has_rt = true; }
     } else {
       emit(sh, e, len, r, sc, allow_rt);
       if (allow_rt && r.chance(sh.p_rt)) { sc.ops.push_back(Op{OP_RT, static_cast<uint8_t>(e), 0, 0.f}); sc.has_rt = true; }
+      // a monitoring loop queries a sketch between updates and merges: the query may sort level 0 / the base buffer as a
+      // side effect and leave "is sorted" state behind that the merge has to invalidate
+      if (r.chance(sh.p_qbm)) { sc.ops.push_back(Op{OP_VIEW, static_cast<uint8_t>(i), static_cast<uint8_t>(r.below(3)), 0.f}); sc.has_query_before_merge = true; }
+      if (r.chance(sh.p_qbm * 0.3)) sc.ops.push_back(Op{OP_VIEW, static_cast<uint8_t>(e), static_cast<uint8_t>(r.below(3)), 0.f});
       sc.ops.push_back(Op{r.chance(sh.p_move) ? OP_MERGE_MOVE : OP_MERGE, static_cast<uint8_t>(i), static_cast<uint8_t>(e), 0.f});
       sc.has_merge = true;
+      if (r.chance(sh.p_qbm * 0.5)) sc.ops.push_back(Op{OP_VIEW, static_cast<uint8_t>(i), 0, 0.f});   // sorted view right after the merge (checked for order)
       if (allow_rt && r.chance(sh.p_rt * 0.5)) { sc.ops.push_back(Op{OP_RT, static_cast<uint8_t>(i), 0, 0.f}); sc.has_rt = true; }
     }
   }
@@ -139,7 +145,7 @@ inline std::string program_text(const Scenario& sc, size_t max_ops = 600) {
       case OP_UPD: os << "u" << int(o.a) << ":" << o.v << " "; break;
       case OP_MERGE: os << "m" << int(o.a) << "<-" << int(o.b) << " "; break;
       case OP_MERGE_MOVE: os << "mm" << int(o.a) << "<-" << int(o.b) << " "; break;
-      case OP_VIEW: os << "v" << int(o.a) << " "; break;
+      case OP_VIEW: os << (o.b == 0 ? "v" : o.b == 1 ? "qr" : "qq") << int(o.a) << " "; break;
       case OP_RT: os << "rt" << int(o.a) << " "; break;
     }
   }
@@ -149,6 +155,8 @@ inline std::string program_text(const Scenario& sc, size_t max_ops = 600) {
 // what one execution observed besides the root sketch
 struct ExecInfo {
   uint64_t flips = 0;
+  uint32_t bad_views = 0;            // a mid-scenario get_sorted_view() that was not ascending or whose total weight was not get_n()
+  uint32_t views_checked = 0;
   uint32_t silent_compactions = 0;   // retained count dropped during an update without any coin flip (REQ negated coin reuse)
   uint32_t flips_in_merges = 0;
   uint32_t flips_in_rt = 0;
@@ -175,7 +183,20 @@ std::unique_ptr<typename Fam::SK> execute(const Scenario& sc, ExecInfo& info) {
       }
       case OP_MERGE: { const uint64_t c0 = coin.calls; pool[o.a]->merge(*pool[o.b]); info.flips_in_merges += static_cast<uint32_t>(coin.calls - c0); break; }
       case OP_MERGE_MOVE: { const uint64_t c0 = coin.calls; pool[o.a]->merge(std::move(*pool[o.b])); pool[o.b].reset(); info.flips_in_merges += static_cast<uint32_t>(coin.calls - c0); break; }
-      case OP_VIEW: { if (!pool[o.a]->is_empty()) { auto v = pool[o.a]->get_sorted_view(); (void)v; } break; }
+      case OP_VIEW: {
+        SK& s = *pool[o.a];
+        if (s.is_empty()) break;
+        if (o.b == 1) { volatile double x = s.get_rank(o.v, true); (void)x; }
+        else if (o.b == 2) { volatile float x = s.get_quantile(0.5); (void)x; }
+        else {
+          auto v = s.get_sorted_view();
+          bool ok = true, first = true; float prev = 0; uint64_t total = 0;
+          for (auto it = v.begin(); it != v.end(); ++it) { const float x = (*it).first; if (!first && x < prev) ok = false; first = false; prev = x; total = (*it).second; }
+          if (!ok || total != s.get_n()) info.bad_views++;
+          info.views_checked++;
+        }
+        break;
+      }
       case OP_RT: { if (pool[o.a]->get_n() > 8) { const uint64_t c0 = coin.calls; pool[o.a].reset(new SK(Fam::roundtrip(*pool[o.a]))); info.flips_in_rt += static_cast<uint32_t>(coin.calls - c0); } break; }
     }
   }
@@ -254,6 +275,12 @@ void run_exhaustive(const Scenario& sc, unsigned f_expected) {
            " (all-zero outcome: " + std::to_string(f) + ") program=" + program_text(sc));
       return;
     }
+    if (info.bad_views) {
+      checked();
+      fail(kp + "sorted-view-not-sorted", ctx + " outcome=" + std::to_string(o) + " a get_sorted_view() taken inside the scenario (op v<i>) was not ascending or its total weight was not get_n(); program=" + program_text(sc));
+      return;
+    }
+    checked(info.views_checked);
     // (3) n and total weight
     VF_CHECK(root->get_n() == n, kp + "n-not-true-n", ctx + " outcome=" + std::to_string(o) + " get_n=" + std::to_string(root->get_n()));
     if (n == 0) continue;
@@ -357,6 +384,8 @@ void run_exhaustive(const Scenario& sc, unsigned f_expected) {
   if (sc.has_merge) count(fam + "_exh_scen_with_merge");
   if (sc.has_merge && f >= 10) count(fam + "_exh_scen_merge_f_ge_10");
   if (sc.has_rt) count(fam + "_exh_scen_with_roundtrip");
+  if (sc.has_query_before_merge) count(fam + "_exh_scen_with_query_before_merge");
+  if (sc.has_query_before_merge && f >= 4) count(fam + "_exh_scen_query_before_merge_f_ge_4");
   count(fam + "_exh_f_" + std::string(f < 10 ? "0" : "") + std::to_string(f));
   sig(mix64(sigacc, mix64(sc.ops.size(), nd)));
 }
@@ -385,6 +414,7 @@ Shape gen_shape(Rng& r, bool want_merge) {
   if (sh.nsk > 1 && r.chance(0.2)) sh.w[0] = 0.0;   // root receives data only through merges (fresh target)
   Fam::gen_cfgs(r, sh.nsk, sh.cfg);
   sh.p_view = r.chance(0.3) ? 0.05 : 0.0;
+  sh.p_qbm = r.chance(0.6) ? 0.8 : 0.0;
   sh.p_rt = (Fam::allow_rt() && r.chance(0.25)) ? 0.5 : 0.0;
   sh.p_move = r.chance(0.3) ? 0.5 : (r.chance(0.5) ? 0.0 : 1.0);
   sh.value_mode = static_cast<int>(r.below(7));
@@ -493,10 +523,31 @@ std::unique_ptr<typename Fam::SK> feed(const Cell& c, const std::vector<float>& 
     const size_t a = static_cast<size_t>(cut[i] * static_cast<double>(stream.size())), b = static_cast<size_t>(cut[i + 1] * static_cast<double>(stream.size()));
     for (size_t j = a; j < b; ++j) p[i]->update(stream[j]);
   }
+  // the destinations are queried right before each merge (as a monitoring loop does): the query sorts level 0 / the base
+  // buffer as a side effect and the merge must not rely on that state afterwards
+  const float probe = stream[stream.size() / 2];
+  if (!p[0]->is_empty()) { volatile double x = p[0]->get_rank(probe, true); (void)x; }
   p[0]->merge(*p[1]);
+  if (!p[2]->is_empty()) { volatile double x = p[2]->get_rank(probe, true); (void)x; }
   p[2]->merge(std::move(*p[3]));
+  if (!p[0]->is_empty()) { volatile double x = p[0]->get_rank(probe, true); (void)x; }
   p[0]->merge(*p[2]);
   return std::move(p[0]);
+}
+
+// the sorted view of a sketch must be ascending and carry total weight n
+template<typename SK>
+bool sorted_view_consistent(const SK& s, uint64_t n, std::string& why) {
+  auto v = s.get_sorted_view();
+  bool first = true; float prev = 0; uint64_t total = 0, prev_cum = 0; size_t pos = 0;
+  for (auto it = v.begin(); it != v.end(); ++it, ++pos) {
+    const float x = (*it).first; const uint64_t cum = (*it).second;
+    if (!first && x < prev) { why = "item " + str(x) + " at position " + std::to_string(pos) + " follows " + str(prev); return false; }
+    if (cum <= prev_cum) { why = "cumulative weight not increasing at position " + std::to_string(pos); return false; }
+    first = false; prev = x; prev_cum = cum; total = cum;
+  }
+  if (total != n) { why = "total weight " + std::to_string(total) + " != n " + std::to_string(n); return false; }
+  return true;
 }
 
 inline std::string cell_text(const char* fam, const std::string& cfg, const Cell& c) {
@@ -550,6 +601,7 @@ void sampled_cell_eps(const Cell& c, Rng& r) {
     if (c.order == 1 || c.order == 2) r.shuffle(stream);
     std::unique_ptr<SK> sk = feed<Fam>(c, stream);
     VF_CHECK(sk->get_n() == c.n, kp + "n-not-true-n", ctx + " get_n=" + std::to_string(sk->get_n()));
+    { std::string why; const bool vok = sorted_view_consistent(*sk, c.n, why); VF_CHECK(vok, kp + "sorted-view-not-sorted", ctx + " trial=" + std::to_string(trial) + " " + why); }
     eps1 = sk->get_normalized_rank_error(false);
     eps2 = sk->get_normalized_rank_error(true);
     double maxerr = 0;
